@@ -343,7 +343,8 @@ def other_containers(ev, mods, imps, cfg, form, acc):
     alt = run(mk_rule(cfg, form), ev)
     acc.evaluated(2)
     acc.count("rules_with_batches_in_another_container")
-    if alt[0] in ("pass", "fail") and (alt[0] != base[0] or (alt[1] is not None and base[1] is not None and set(alt[1].split("\n")) != set(base[1].split("\n")))):
+    # (the REPORT of a rule whose names are members of a str-mixin Enum is a known finding of C03: verdict only)
+    if alt[0] in ("pass", "fail") and (alt[0] != base[0] or (form != "enum" and alt[1] is not None and base[1] is not None and set(alt[1].split("\n")) != set(base[1].split("\n")))):
         HUB.violation("C01", f"verdict:batch-as-{form}-differs-from-list", f"the same rule with its batches given as a {form} gave {alt[0]}, given as lists {base[0]}", {"as_list": base, f"as_{form}": alt})
 
 
@@ -385,6 +386,10 @@ def randomised(spec, acc):
             _eval(ev, mods, imps, cfg, acc, list_form=lf)
             if rnd.random() < 0.08 and len(cfg["subs"]) + len(cfg["objs"]) > 2:
                 other_containers(ev, mods, imps, cfg, rnd.choice(["tuple", "generator", "map"]), acc)
+            if rnd.random() < 0.06:
+                # the same names as instances of a str subclass / members of a str-mixin Enum or a StrEnum
+                other_containers(ev, mods, imps, cfg, rnd.choice(["strsub", "enum", "strenum"]), acc)
+                acc.count("rules_with_names_of_another_str_type")
             done += 1
             acc.hist("batch_size", f"{len(cfg['subs'])}x{len(cfg['objs'])}")
             if done % 25 == 0 and cfg["objs"] and not cfg["anything"] and cfg["objs"][0][0] != "regex":
@@ -458,6 +463,8 @@ def floors(acc, tier):
     for how in ("deepcopy", "pickle"):
         if acc.counters["rules_finished_on_a_copy_of_a_kept_prefix:" + how] < 100:
             why.append(f"only {acc.counters['rules_finished_on_a_copy_of_a_kept_prefix:' + how]} rules finished on a {how} copy of a kept prefix")
+    if acc.counters["rules_with_names_of_another_str_type"] < 100:
+        why.append(f"only {acc.counters['rules_with_names_of_another_str_type']} rules with names of another str type")
     if acc.counters["rules_retargeted_after_application"] < 100:
         why.append(f"only {acc.counters['rules_retargeted_after_application']} rules built by re-targeting an applied rule prefix")
     if acc.counters["rules_with_batches_in_another_container"] < 100:
